@@ -45,3 +45,32 @@ def classify(e, w, h):
     if n == "svt_av1_upsample_intra_edge":
         return ("upsample_intra_edge", 0, 0, 0, 0)
     return None
+
+
+# what each driver enumerates (copied into the evidence)
+DOC = {
+    'lpf':
+        'filter level 1..63 x sharpness 0..7 (-> mblim/lim/hev_thr exactly as update_sharpness computes them; quick: all levels at sharpness 0, 1/8 of the rest) x pitch {16,17,32,80} x bit depth (hbd: 8,10,12) x ~510 pixel profiles across the edge (pattern alphabet on the 16x4 window, 169 p/q step pairs x2, 10 ramps, 140 spikes); whole 16-row window compared',
+    'cdef_find_dir':
+        'coeff_shift {0,2,4} x stride {144,8,24} x pattern alphabet + 32 oriented stripe patterns on the 8x8 block; direction and variance compared',
+    'cdef_filter_block':
+        'coeff_shift {0,2,4} x block {8x8,4x4,4x8,8x4} x 8-bit/16-bit destination x dense/picture dstride x CDEF_VERY_LARGE border variant (6) x 10 window patterns x damping 3..6(+shift, -1 chroma) x primary strength 0..15<<shift (plus two adjust_strength scalings for luma) x secondary {0,1,2,4}<<shift x direction 0..7 (quick: 1/4 of the strength/direction grid)',
+    'cdef_dist':
+        'coeff_shift x block size x plane x block list {single, diagonal, checkerboard, all 64} x reference stride {64,80,144} x all pattern pairs',
+    'dr_pred':
+        'every transform size x every reachable prediction angle of the zone (mode angle + 3*delta) with dx/dy from eb_dr_intra_derivative x upsample flags allowed by use_intra_edge_upsample x dst stride x edge patterns; highbd bit depth 8,10,12 (zone 2 highbd: 8,10 - the library rebinds the pointer to C for 12-bit)',
+    'filter_intra_pred':
+        'transform sizes <= 32x32 x mode 0..4 x stride x edge patterns',
+    'filter_intra_edge':
+        "every reachable sz (multiple of 4 in 4..64, +1, + other dimension) x strength 0..3 x pointer offset {0,-1} x pattern alphabet (highbd: ranges 8/10/12 bit); defined output p[0..sz) and everything outside the kernels' scratch window compared",
+    'upsample_intra_edge':
+        'sz {4,8,12,16}: complete {0,255}^(sz+1) cube + pattern alphabet',
+    'sgr':
+        'unit width {1,2,3,4,7,8,9,16,17,31,32,64} x height {1,2,3,4,8,15,16,32,56,64} (quick: 1/4 of the grid + corners) x (bit depth, highbd) {(8,0),(8,1),(10,1),(12,1)} x 8 picture patterns (with 3-sample border) x sgr_params_idx 0..15 x 2 flt strides',
+    'apply_sgr':
+        'as sgr x xqd pairs from {min,max,0,mid}^2 (quick: 1/4)',
+    'sgr_proj':
+        'unit sizes {8..96}x{8..96} x deblocked/source pattern pairs (8x8) x ep 0..15 x xqd extremes; flt0/flt1 manufactured with the C self-guided filter',
+    'compute_stats':
+        'wiener_win {3,5,7} x unit width {4..100} x height {4..64} x deblocked/source pattern pairs; M and H compared',
+}
